@@ -6,6 +6,8 @@ the reader's normalisation, and the rewrite of a canonicalised key below the sou
 import GrcovModel.Cli
 import GrcovModel.Lemmas.LcovIterate
 import GrcovModel.Lemmas.RewriteIdem
+import GrcovModel.Lemmas.MainGlue
+import GrcovModel.Lemmas.RewritePartial
 namespace Grcov.Cli
 open Grcov AList Grcov.Lcov Grcov.Rewrite Grcov.UPath
 
@@ -77,11 +79,117 @@ theorem sortByKey_of_sorted {α : Type} (m : List (Nat × α)) (h : SortedKeys m
 theorem sortByKey_idem {α : Type} (m : List (Nat × α)) : sortByKey (sortByKey m) = sortByKey m :=
   sortByKey_of_sorted _ (sortByKey_sorted m)
 
+/-! ### sorting the function table by name (`sorted_functions`) -/
+
+open Grcov.MainGlue in
+def SortedNames (m : List (Name × Fn)) : Prop := m.Pairwise fun a b => bytesLe a.1 b.1 = true
+
+theorem insertByName_perm (nf : Name × Fn) (m : List (Name × Fn)) :
+    (insertByName nf m).Perm (nf :: m) := by
+  induction m with
+  | nil => exact List.Perm.refl _
+  | cons x xs ih =>
+    unfold insertByName
+    split
+    · exact List.Perm.refl _
+    · exact (List.Perm.cons x ih).trans (List.Perm.swap nf x xs)
+
+theorem sortFns_perm (m : List (Name × Fn)) : (sortFns m).Perm m := by
+  induction m with
+  | nil => exact List.Perm.refl _
+  | cons x xs ih => exact (insertByName_perm x _).trans (List.Perm.cons x ih)
+
+open Grcov.MainGlue in
+theorem insertByName_sorted (nf : Name × Fn) (m : List (Name × Fn)) (h : SortedNames m) :
+    SortedNames (insertByName nf m) := by
+  induction m with
+  | nil => simp [insertByName, SortedNames]
+  | cons x xs ih =>
+    have hx := List.pairwise_cons.mp h
+    unfold insertByName
+    split
+    · rename_i hle
+      refine List.pairwise_cons.mpr ⟨?_, h⟩
+      intro y hy
+      rcases List.mem_cons.mp hy with rfl | hy
+      · exact hle
+      · exact bytesLe_trans _ _ _ hle (hx.1 y hy)
+    · rename_i hnle
+      have hxr : bytesLe x.1 nf.1 = true := by
+        rcases bytesLe_total nf.1 x.1 with h1 | h1
+        · exact absurd h1 hnle
+        · exact h1
+      refine List.pairwise_cons.mpr ⟨?_, ih hx.2⟩
+      intro y hy
+      have := (insertByName_perm nf xs).mem_iff.mp hy
+      rcases List.mem_cons.mp this with rfl | hy
+      · exact hxr
+      · exact hx.1 y hy
+
+theorem sortFns_sorted (m : List (Name × Fn)) : SortedNames (sortFns m) := by
+  induction m with
+  | nil => simp [sortFns, SortedNames]
+  | cons x xs ih => exact insertByName_sorted x _ ih
+
+theorem sortFns_of_sorted (m : List (Name × Fn)) (h : SortedNames m) : sortFns m = m := by
+  induction m with
+  | nil => rfl
+  | cons x xs ih =>
+    have hx := List.pairwise_cons.mp h
+    simp only [sortFns]
+    rw [ih hx.2]
+    cases xs with
+    | nil => rfl
+    | cons y ys => simp [insertByName, hx.1 y (by simp)]
+
+theorem sortFns_idem (m : List (Name × Fn)) : sortFns (sortFns m) = sortFns m :=
+  sortFns_of_sorted _ (sortFns_sorted m)
+
+theorem nodupKeys_sortFns (m : List (Name × Fn)) (h : NodupKeys m) : NodupKeys (sortFns m) := by
+  unfold NodupKeys keys at *
+  exact ((sortFns_perm m).map _).nodup_iff.2 h
+
+open Grcov.MainGlue in
+/-- two name-sorted tables with distinct names and the same entries are the same list -/
+theorem sortedNames_perm_eq : ∀ (a b : List (Name × Fn)), SortedNames a → SortedNames b →
+    NodupKeys a → a.Perm b → a = b
+  | [], b, _, _, _, p => (List.Perm.nil_eq p)
+  | x :: xs, [], _, _, _, p => absurd p.symm (by simp)
+  | x :: xs, y :: ys, sa, sb, na, p => by
+    have hsa := List.pairwise_cons.mp sa
+    have hsb := List.pairwise_cons.mp sb
+    have nb : NodupKeys (y :: ys) := by
+      unfold NodupKeys keys at *; exact (p.map _).nodup_iff.1 na
+    have hxy : x = y := by
+      have hx : x ∈ y :: ys := p.subset (by simp)
+      have hy : y ∈ x :: xs := p.symm.subset (by simp)
+      rcases List.mem_cons.mp hx with e | hx'
+      · exact e
+      · rcases List.mem_cons.mp hy with e | hy'
+        · exact e.symm
+        · have h1 := hsb.1 x hx'
+          have h2 := hsa.1 y hy'
+          have hk : x.1 = y.1 := bytesLe_antisymm _ _ h2 h1
+          -- y ∈ xs with the key of x: the keys of x :: xs are not distinct
+          unfold NodupKeys keys at na
+          simp only [List.map_cons, List.nodup_cons] at na
+          exact absurd (by rw [hk]; exact List.mem_map_of_mem hy') na.1
+    subst hxy
+    have na' : NodupKeys xs := by
+      unfold NodupKeys keys at *; simp only [List.map_cons, List.nodup_cons] at na; exact na.2
+    rw [sortedNames_perm_eq xs ys hsa.2 hsb.2 na' ((List.perm_cons x).1 p)]
+
+/-- **the listed order of the functions does not depend on the table's iteration order** -/
+theorem sortFns_eq_of_perm {m₁ m₂ : List (Name × Fn)} (p : m₁.Perm m₂) (h : NodupKeys m₁) :
+    sortFns m₁ = sortFns m₂ :=
+  sortedNames_perm_eq _ _ (sortFns_sorted m₁) (sortFns_sorted m₂) (nodupKeys_sortFns m₁ h)
+    (((sortFns_perm m₁).trans p).trans (sortFns_perm m₂).symm)
+
 /-- what the reader rebuilds from a written record: the record in key order, minus empty vectors -/
 def norm (c : Cov) : Cov := dropEmpty (sortCov c)
 
 theorem sortCov_norm (c : Cov) : sortCov (norm c) = norm c := by
-  simp only [norm, sortCov, dropEmpty, sortByKey_idem]
+  simp only [norm, sortCov, dropEmpty, sortByKey_idem, sortFns_idem]
   congr 1
   apply sortByKey_of_sorted
   exact List.Pairwise.filter _ (sortByKey_sorted c.branches)
@@ -95,8 +203,8 @@ theorem nodupKeys_sortByKey {α : Type} (m : List (Nat × α)) (h : NodupKeys m)
 theorem isCovered_norm (c : Cov) : isCovered (norm c) = isCovered c := by
   have : (norm c).lines.any (fun lc => lc.2 != 0) = c.lines.any (fun lc => lc.2 != 0) :=
     (sortByKey_perm c.lines).any_eq
-  simp only [isCovered, this]
-  rfl
+  have hf : (norm c).functions.Perm c.functions := sortFns_perm c.functions
+  simp only [isCovered, this, hf.length_eq, hf.any_eq]
 
 theorem filterOk_norm (f : Option Bool) (c : Cov) : filterOk f (norm c) = filterOk f c := by
   unfold filterOk; rw [isCovered_norm]
@@ -229,5 +337,160 @@ theorem rewritePaths_map_ok {α : Type} (cfg : Cfg) (fs : FS) (l : List α) (key
   cases hs : cfg.sourceDir with
   | none => exact hc
   | some s => simp only [habs s hs, if_true]; exact hc
+
+/-! ### the run with the Java/Kotlin lookup (`runJ`) -/
+
+/-- the lookup is not needed: the run is the run without it -/
+theorem reportJ_eq_report (cfg : Cfg) (branch : Bool) (fs : FS) (ord : List (List Lcov.Bytes))
+    (inputs : List Lcov.Bytes)
+    (h : needed cfg fs ((resultMap cfg branch fs inputs).map (·.1)) = false) :
+    reportJ cfg branch fs ord inputs = report cfg branch fs inputs := by
+  unfold reportJ report
+  exact rewritePathsJ_eq_rewritePaths cfg fs ord _ (walkPanics_of_not_needed h) fun _ _ => Or.inl h
+
+theorem runJ_eq_run (cfg : Cfg) (branch : Bool) (fs : FS) (ord : List (List Lcov.Bytes))
+    (inputs : List Lcov.Bytes)
+    (h : needed cfg fs ((resultMap cfg branch fs inputs).map (·.1)) = false) :
+    runJ cfg branch fs ord inputs = run cfg branch fs inputs := by
+  unfold runJ run; rw [reportJ_eq_report cfg branch fs ord inputs h]
+
+/-- without a source dir there is nothing to look up -/
+theorem needed_of_no_source {cfg : Cfg} (hS : cfg.sourceDir = none) (fs : FS) (keys : List Lcov.Bytes) :
+    needed cfg fs keys = false := by simp [needed, hS]
+
+/-- no Java/Kotlin key: nothing to look up -/
+theorem needed_of_no_java {cfg : Cfg} (fs : FS) {keys : List Lcov.Bytes}
+    (h : ∀ k ∈ keys, isPartialExt k = false) : needed cfg fs keys = false := by
+  have : hasJava keys = false := by
+    unfold hasJava; rw [List.any_eq_false]; intro k hk; simp [h k hk]
+  unfold needed; cases cfg.sourceDir <;> simp [this]
+
+/-- every key exists below the source dir as spelled (after prefix removal): nothing to look up -/
+theorem needed_of_all_exist {cfg : Cfg} {fs : FS} {s : Lcov.Bytes} (hS : cfg.sourceDir = some s)
+    {keys : List Lcov.Bytes}
+    (h : ∀ k ∈ keys, fs.exists (push s (removePrefix cfg.prefixDir k)) = true) :
+    needed cfg fs keys = false := by
+  have : (keys.any fun k => !fs.exists (push s (removePrefix cfg.prefixDir k))) = false := by
+    rw [List.any_eq_false]; intro k hk; simp [h k hk]
+  unfold needed; rw [hS]; simp [this]
+
+/-- the canonical path of an existing file below `S`, with the prefix dir absent or `S`, exists
+below `S` as `rewrite_paths` probes it -/
+theorem exists_canonical_under_source {cfg : Cfg} {fs : FS} {sn names : List Lcov.Bytes}
+    (hP : cfg.prefixDir = none ∨ cfg.prefixDir = some (render ⟨true, sn⟩))
+    (hsn : ∀ n ∈ sn, RealName n) (hn : ∀ n ∈ names, RealName n) (hne : names ≠ [])
+    (hres : fs.resolve (render ⟨true, sn ++ names⟩) = some (sn ++ names, .file)) :
+    fs.exists (push (render ⟨true, sn⟩) (removePrefix cfg.prefixDir (render ⟨true, sn ++ names⟩))) = true := by
+  rcases hP with hP | hP
+  · have : push (render ⟨true, sn⟩) (render ⟨true, sn ++ names⟩) = render ⟨true, sn ++ names⟩ := by
+      unfold push; simp [hasRoot_render_true]
+    simp [hP, removePrefix, this, FS.exists, hres]
+  · simp [hP, removePrefix, stripPrefix_render hsn hn, push_render hsn hn hne, FS.exists, hres]
+
+/-! ### `--branch` off: no branch data anywhere -/
+
+theorem mergeWith_nil_nil {κ α : Type} [DecidableEq κ] (f : α → α → α) :
+    mergeWith f ([] : List (κ × α)) [] = [] := rfl
+
+theorem addOne_no_branches (canon : Key → Key) (m : List (Key × Cov)) (kc : Key × Cov)
+    (hm : ∀ x ∈ m, x.2.branches = []) (hk : kc.2.branches = []) :
+    ∀ x ∈ addOne canon m kc, x.2.branches = [] := by
+  intro x hx
+  unfold addOne at hx
+  -- an entry of `set m k v` is an old entry or (k, v)
+  have key : ∀ (m : List (Key × Cov)) (k : Key) (v : Cov), (∀ x ∈ m, x.2.branches = []) →
+      v.branches = [] → ∀ x ∈ AList.set m k v, x.2.branches = [] := by
+    intro m k v hm hv
+    induction m with
+    | nil => intro x hx; simp [AList.set] at hx; subst hx; exact hv
+    | cons a m ih =>
+      intro x hx
+      obtain ⟨k0, w⟩ := a
+      unfold AList.set at hx
+      split at hx
+      · simp only [List.mem_cons] at hx
+        rcases hx with h | h
+        · subst h; exact hv
+        · exact hm x (List.mem_cons_of_mem _ h)
+      · simp only [List.mem_cons] at hx
+        rcases hx with h | h
+        · subst h; exact hm _ (by simp)
+        · exact ih (fun y hy => hm y (List.mem_cons_of_mem _ hy)) x h
+  refine key m _ _ hm ?_ x hx
+  cases hg : get? m (canon kc.1) with
+  | none => exact hk
+  | some v =>
+    have hv : v.branches = [] := hm (canon kc.1, v) (mem_of_get? hg)
+    simp [merge, hv, hk, mergeWith]
+
+theorem addResults_no_branches (canon : Key → Key) (m batch : List (Key × Cov))
+    (hm : ∀ x ∈ m, x.2.branches = []) (hb : ∀ x ∈ batch, x.2.branches = []) :
+    ∀ x ∈ addResults canon m batch, x.2.branches = [] := by
+  induction batch generalizing m with
+  | nil => exact hm
+  | cons kc batch ih =>
+    exact ih _ (addOne_no_branches canon m kc hm (hb kc (by simp))) fun x hx => hb x (List.mem_cons_of_mem _ hx)
+
+/-- with branch parsing disabled no branch data is produced (as `C04_branch_off`, from the same
+invariant of the byte machine) -/
+theorem parse_off_no_branches (bs : Lcov.Bytes) (rs : List (Lcov.Bytes × Cov)) (h : Lcov.parse false bs = .ok rs) :
+    ∀ r ∈ rs, r.2.branches = [] := by
+  have inv : ∀ (bs : Lcov.Bytes) (s : St), NoBranchInv s → NoBranchInv (Lcov.run false s bs) := by
+    intro bs
+    induction bs with
+    | nil => intro s hs; exact hs
+    | cons b bs ih => intro s hs; exact ih _ (step_noBranch s b hs)
+  have hi := inv bs {} ⟨rfl, rfl, by simp⟩
+  unfold Lcov.parse at h
+  generalize Lcov.run false {} bs = s at h hi
+  obtain ⟨ctl, a⟩ := s
+  have key : ∀ rs', Out.ok a.results = Out.ok rs' → ∀ r ∈ rs', r.2.branches = [] := by
+    intro rs' e; cases e; exact hi.2.2
+  cases ctl <;> simp only [finish] at h
+  case halt o =>
+    subst h; exact absurd hi.1 (by simp [Ctl.isBr])
+  all_goals first
+    | exact key rs h
+    | (split at h <;> first | exact key rs h | cases h)
+    | cases h
+
+theorem parseInput_off_no_branches (b : Lcov.Bytes) : ∀ x ∈ parseInput false b, x.2.branches = [] := by
+  unfold parseInput
+  cases h : Lcov.parse false b with
+  | ok rs => exact parse_off_no_branches b rs h
+  | err k => simp
+  | panic s => simp
+
+/-- a run without `--branch` on lcov inputs files no branch data -/
+theorem resultMap_off_no_branches (cfg : Cfg) (fs : FS) (inputs : List Lcov.Bytes) :
+    ∀ x ∈ resultMap cfg false fs inputs, x.2.branches = [] := by
+  unfold resultMap
+  have : ∀ (ins : List Lcov.Bytes) (m : List (Key × Cov)), (∀ x ∈ m, x.2.branches = []) →
+      ∀ x ∈ ins.foldl (fun m b => addResults (addCanon fs cfg.sourceDir) m (parseInput false b)) m,
+        x.2.branches = [] := by
+    intro ins
+    induction ins with
+    | nil => intro m hm; exact hm
+    | cons b ins ih =>
+      intro m hm
+      exact ih _ (addResults_no_branches _ m _ hm (parseInput_off_no_branches b))
+  exact this inputs [] (by simp)
+
+/-- what a run WITHOUT `--branch` reads from a report written by a run: the branch data is gone -/
+theorem parseInput_off_printReport (rep : List Rewrite.Rec) (h : Grcov.Props.C05.ReportOK (printable rep))
+    (hb : ∀ r ∈ rep, r.cov.branches = []) :
+    parseInput false (printReport rep) = rep.map fun r => (r.rel, norm r.cov) := by
+  unfold parseInput printReport
+  rw [parse_printLcov_off (printable rep) fun pc hpc => (h pc hpc).1]
+  simp only [printable, List.map_map]
+  apply List.map_congr_left
+  intro r hr
+  have := h (r.rel, sortCov r.cov) (List.mem_map_of_mem (f := fun r => (r.rel, sortCov r.cov)) hr)
+  have hbr : (sortCov r.cov).branches = [] := by simp [sortCov, hb r hr, sortByKey]
+  have e : rtCovOff (sortCov r.cov) = rtCov (sortCov r.cov) := by
+    unfold rtCovOff
+    rw [rtCov_eq _ this.1.wf]
+    simp [dropEmpty, hbr, nonEmptyVecs]
+  simp only [Function.comp, this.2, norm, e, rtCov_eq _ this.1.wf]
 
 end Grcov.Cli
